@@ -158,3 +158,19 @@ Example C07_entry_code_nonvacuous :
     [(s "doc", VMap [(s "items", VList [VMap [(s "k", VStr (s "1")); (s "t", VStr (s "a"))]; VMap [(s "k", VStr (s "2")); (s "t", VStr (s "b"))]])])]
     (s "doc.items[1]") [s "t:b"] = Ret (Ok [VMap [(s "k", VStr (s "2")); (s "t", VStr (s "b"))]]).
 Proof. split; [discriminate|split; vm_compute; reflexivity]. Qed.
+
+(* ---- the wrappers of ValuesForPath (exists.go, keyvalues.go), translated from the current sources and instantiated
+   with the translated ValuesForPath (GenProofs/PureG7.v) *)
+From Mxj Require Import GenProofs.PureG7.
+
+Theorem C07_exists_code_is_model : forall pf st m path subkeys, g_fieldSep st <> [] ->
+  fn_Exists (run_ValuesForPath pf st) st m path subkeys
+  = of_res (exists_path pf (g_fieldSep st) (VMap m) path subkeys).
+Proof. exact exists_code_is_model. Qed.
+Print Assumptions C07_exists_code_is_model.
+
+Theorem C07_value_for_path_code_is_model : forall pf st m path, g_fieldSep st <> [] ->
+  fn_ValueForPath (run_ValuesForPath pf st) st m path
+  = of_res (value_for_path pf (g_fieldSep st) (VMap m) path).
+Proof. exact value_for_path_code_is_model. Qed.
+Print Assumptions C07_value_for_path_code_is_model.
